@@ -8,7 +8,7 @@ from ..pyutil import parents
 
 META = {
     'title': 'Morphy returns only valid lemmas when initialized and all candidates otherwise',
-    'technique': 'provenance of everything added to the candidate set under its dominating guards; folded rule table',
+    'technique': 'effect summaries of Morphy.__init__/__call__/_morphstr: everything added to the candidate set with its exact guards; folded rule table',
     'explanation': (
         'String rewriting over all queries is value-level and not decided. Decided: R1 provenance in Morphy._morphstr - when '
         'initialized, everything added to `candidates` is the query under a `form in all_lemmas` guard, a value of the exception '
